@@ -82,6 +82,9 @@ impl SlotBlock {
         let total = slot_size as usize * slot_count as usize;
         let layout = Layout::from_size_align(total, 8).expect("invalid layout");
         let raw = arena.allocate(layout).expect("arena capacity exceeded during pool init");
+        // No slot is handed out yet.
+        #[cfg(feature = "verif")]
+        crate::verif::poison(raw.cast::<u8>().as_ptr(), total);
 
         Self { base: raw.cast(), slot_size, slot_count, bump: Cell::new(0) }
     }
@@ -178,8 +181,26 @@ impl Pool {
     fn alloc(&self) -> Option<NonNull<[u8]>> {
         let ptr;
 
+        // Quarantine: never-used slots first, so a released slot stays poisoned as long as possible.
+        #[cfg(feature = "verif")]
+        if crate::verif::quarantine() && self.block.bump.get() < self.block.slot_count {
+            let bump = self.block.bump.get();
+            let ptr = self.block.slot_ptr(bump);
+            self.block.bump.set(bump + 1);
+            self.live_count.set(self.live_count.get() + 1);
+            self.assert_conservation();
+            crate::verif::bump(crate::verif::Counter::PoolAllocVirgin);
+            crate::verif::unpoison(ptr.as_ptr(), self.block.slot_size as usize);
+            return Some(NonNull::slice_from_raw_parts(ptr, self.block.slot_size as usize));
+        }
+
         if let Some(index) = self.free.pop() {
             ptr = self.block.slot_ptr(index);
+            #[cfg(feature = "verif")]
+            {
+                crate::verif::bump(crate::verif::Counter::PoolAllocReuse);
+                crate::verif::unpoison(ptr.as_ptr(), self.block.slot_size as usize);
+            }
 
             if cfg!(debug_assertions) {
                 let slot = unsafe {
@@ -197,6 +218,11 @@ impl Pool {
             }
             ptr = self.block.slot_ptr(bump);
             self.block.bump.set(bump + 1);
+            #[cfg(feature = "verif")]
+            {
+                crate::verif::bump(crate::verif::Counter::PoolAllocVirgin);
+                crate::verif::unpoison(ptr.as_ptr(), self.block.slot_size as usize);
+            }
         }
 
         self.live_count.set(self.live_count.get() + 1);
@@ -225,6 +251,11 @@ impl Pool {
         }
 
         self.free.push(index);
+        #[cfg(feature = "verif")]
+        {
+            crate::verif::bump(crate::verif::Counter::PoolReturn);
+            crate::verif::poison(ptr.as_ptr(), self.block.slot_size as usize);
+        }
 
         let live = self.live_count.get();
         debug_assert!(live > 0, "dealloc when live_count is zero (double-free?)");
@@ -289,6 +320,8 @@ impl<'a> PoolSet<'a> {
         {
             return ptr;
         }
+        #[cfg(feature = "verif")]
+        crate::verif::bump(crate::verif::Counter::PoolFallback);
         let layout = Layout::from_size_align(size as usize, 1).expect("invalid layout");
         self.arena.allocate(layout).expect("arena capacity exceeded")
     }
@@ -328,6 +361,117 @@ impl<'a> PoolSet<'a> {
     #[inline]
     pub(crate) fn arena(&self) -> &'a Arena {
         self.arena
+    }
+}
+
+/// Verification wrappers around the crate-private pool API (feature `verif`).
+#[cfg(feature = "verif")]
+pub mod verif {
+    use std::ptr::NonNull;
+
+    use super::{Arena, ArenaString, CLASS_COUNT, Pool, PoolSet, SLOT_COUNTS, SLOT_SIZES};
+
+    pub const CLASSES: usize = CLASS_COUNT as usize;
+
+    /// `(live, free, bump, slot_size, slot_count, block base address)` of one pool.
+    pub type PoolState = (u32, u32, u32, u32, u32, usize);
+
+    fn state_of(pool: &Pool) -> PoolState {
+        (
+            pool.live_count.get(),
+            pool.free.len(),
+            pool.block.bump.get(),
+            pool.block.slot_size,
+            pool.block.slot_count,
+            pool.block.base.as_ptr() as usize,
+        )
+    }
+
+    #[must_use]
+    pub fn slot_sizes() -> [u32; CLASSES] {
+        SLOT_SIZES
+    }
+
+    #[must_use]
+    pub fn slot_counts() -> [u32; CLASSES] {
+        SLOT_COUNTS
+    }
+
+    #[must_use]
+    pub fn size_class(n: u32) -> Option<u32> {
+        super::size_class(n)
+    }
+
+    /// One pool of arbitrary geometry.
+    pub struct VPool<'a> {
+        pool: Pool,
+        _arena: &'a Arena,
+    }
+
+    impl<'a> VPool<'a> {
+        #[must_use]
+        pub fn new(arena: &'a Arena, slot_size: u32, slot_count: u32) -> Self {
+            Self { pool: Pool::new(arena, slot_size, slot_count), _arena: arena }
+        }
+
+        #[must_use]
+        pub fn alloc(&self) -> Option<NonNull<[u8]>> {
+            self.pool.alloc()
+        }
+
+        /// # Safety
+        ///
+        /// `ptr` must be a live slot of this pool.
+        pub unsafe fn dealloc(&self, ptr: NonNull<u8>) {
+            unsafe { self.pool.dealloc(ptr) };
+        }
+
+        #[must_use]
+        pub fn contains(&self, ptr: *const u8) -> bool {
+            self.pool.contains(ptr)
+        }
+
+        #[must_use]
+        pub fn state(&self) -> PoolState {
+            state_of(&self.pool)
+        }
+    }
+
+    /// The runtime's 20-class pool set.
+    pub struct VPoolSet<'a>(PoolSet<'a>);
+
+    impl<'a> VPoolSet<'a> {
+        #[must_use]
+        pub fn new(arena: &'a Arena) -> Self {
+            Self(PoolSet::new(arena))
+        }
+
+        #[must_use]
+        pub fn alloc(&self, size: u32) -> NonNull<[u8]> {
+            self.0.alloc(size)
+        }
+
+        /// # Safety
+        ///
+        /// `ptr`/`size` must come from a matching `alloc` and the buffer must be live.
+        pub unsafe fn dealloc(&self, ptr: NonNull<u8>, size: u32) {
+            unsafe { self.0.dealloc(ptr, size) };
+        }
+
+        #[must_use]
+        pub fn contains(&self, ptr: *const u8) -> bool {
+            self.0.contains(ptr)
+        }
+
+        #[must_use]
+        pub fn alloc_str(&self, s: &str) -> ArenaString<'a> {
+            self.0.alloc_str(s)
+        }
+
+        #[must_use]
+        pub fn class_state(&self, class: usize) -> PoolState {
+            state_of(&self.0.pools[class])
+        }
     }
 }
 
